@@ -83,6 +83,10 @@ pub struct StreamState {
     pub ended: bool,
     pub waker: Option<Waker>,
     pub polls: u64,
+    /// items that become visible only after the stream has woken itself from inside poll_next
+    pub hidden: VecDeque<u64>,
+    pub self_wakes_due: u32,
+    pub self_wakes_done: u64,
 }
 
 pub struct ScriptStream(pub Rc<RefCell<StreamState>>);
@@ -92,7 +96,19 @@ impl futures::Stream for ScriptStream {
     fn poll_next(self: Pin<&mut Self>, cx: &mut Context<'_>) -> TaskPoll<Option<u64>> {
         let mut s = self.0.borrow_mut();
         s.polls += 1;
-        if let Some(x) = s.queue.pop_front() {
+        let front = s.queue.front().copied();
+        if let Some(x) = front {
+            if s.hidden.front() == Some(&x) {
+                // this item is not ready yet: the stream wakes itself from inside poll_next and reports Pending;
+                // the item is handed out by the poll that this self-wake causes
+                s.hidden.pop_front();
+                s.self_wakes_due = s.self_wakes_due.saturating_sub(1);
+                s.self_wakes_done += 1;
+                s.waker = Some(cx.waker().clone());
+                cx.waker().wake_by_ref();
+                return TaskPoll::Pending;
+            }
+            s.queue.pop_front();
             TaskPoll::Ready(Some(x))
         } else if s.ended {
             TaskPoll::Ready(None)
